@@ -32,7 +32,7 @@ Interval(x) == IF Len(x) = 1 THEN <<x[1], x[1]>>
 RetractLess(x, y) ==
     LET a == Interval(x) b == Interval(y) c == SemCmp(a[1], b[1])
     IN IF c # 0 THEN c > 0 ELSE SemCmp(a[2], b[2]) > 0
-GoAtLeast121(g) == g \notin {"", "1.20", "1.19", "1.18", "1.17"}
+GoAtLeast121(g) == g \notin {"", "1.20", "1.19", "1.18", "1.17", "1.9", "1.3"}    \* numerically: 1.100 is at least 1.21, 1.9 is not
 LessFor(verb, gov, x, y) ==
     IF verb = "exclude" /\ GoAtLeast121(gov) THEN ExcludeLess(x, y)
     ELSE IF verb = "retract" THEN RetractLess(x, y)
@@ -41,7 +41,9 @@ BlockSorted(b, gov) ==
     b.block => \A i, j \in 1..Len(b.lines) : i < j => ~LessFor(b.verb, gov, b.lines[j].tokens, b.lines[i].tokens)
 
 ContainsStr(h, n) == n = "" \/ \E i \in 1..(Len(h) - Len(n) + 1) : SubSeq(h, i, i + Len(n) - 1) = n
-IsIndirect(ln) == ln.cs = "indirect" \/ (Len(ln.cs) > 9 /\ SubSeq(ln.cs, 1, 9) = "indirect;")
+\* the marker is the word "indirect" alone, or "indirect;" followed by white space and more (a comment such as "indirect;see" is
+\* an ordinary comment)
+IsIndirect(ln) == ln.cs = "indirect" \/ (Len(ln.cs) > 10 /\ SubSeq(ln.cs, 1, 10) = "indirect; ")
 KeyVerb == IF e.in.kind = "mod" THEN "require" ELSE "use"
 KeyLines == LET bs == SelectSeq(e.obs.blocks, LAMBDA b : b.verb = KeyVerb)
                 RECURSIVE Cat(_)
